@@ -11,7 +11,7 @@ PROPERTY = 'C05'
 LEVEL = 'model_checking'
 RULE = ('every ordered event tree with <= N nodes (fan-out <= 2, depth <= 3 below the root) x per non-root node '
         '(edge kind: fired by the plain handler | fired by a later generator step) x (mark: none | cancelled right after '
-        'firing (leaves) | stopped by its first handler | raising) x root mark x variants (nested complete-requesting '
+        'firing (leaves) | stopped by its first handler | raising | without any handler (leaves)) x root mark x variants (nested complete-requesting '
         'descendant, two simultaneous roots); non-trivial = tree with >= 2 levels or any mark/generator edge; '
         'distinct = distinct program')
 ASSUMPTIONS = [
@@ -48,7 +48,7 @@ def shapes(maxnodes):
 
 
 EDGE = ('plain', 'gen')
-MARK = ('none', 'cancel', 'stop', 'raise')
+MARK = ('none', 'cancel', 'stop', 'raise', 'nohandler')
 
 
 def programs(tier):
@@ -79,6 +79,8 @@ def build(program):
     n = len(par)
     handlers = []
     for i in range(n):
+        if marks[i] == 'nohandler':
+            continue   # nobody handles this event at all (leaves only)
         kids = [j for j in range(1, n) if par[j] == i]
 
         def fire(j):
@@ -115,7 +117,12 @@ def execute(program):
         w.fire('n0', {'complete': True})
         if variant == 'double':
             w.fire('n0', {'complete': True})
-    w = ghost.RunWorld(build(program), script=[None, go], horizon=60)
+    # named observers only: a catch-all observer would give every event a handler
+    ghost.World.observe_names = ['n%d_complete' % i for i in range(len(par))] + ['exception']
+    try:
+        w = ghost.RunWorld(build(program), script=[None, go], horizon=60)
+    finally:
+        ghost.World.observe_names = None
     res = w.run()
     return w, res
 
@@ -197,6 +204,8 @@ def _work(part, nparts, payload):
             st.interesting(program)
         if 'cancel' in program[2]:
             st.counters['programs_with_cancelled_descendant'] += 1
+        if 'nohandler' in program[2]:
+            st.counters['programs_with_handlerless_descendant'] += 1
         if 'gen' in program[1]:
             st.counters['programs_firing_from_generator_steps'] += 1
         if part == seed % nparts and idx in (3, 400):
